@@ -327,6 +327,9 @@ func checkPegCombinators(r *Run, prog *Program, pfx string) {
 		if full == 0 {
 			probs = append(probs, "no path on which two elements in a row match")
 		}
+		if skip := e.matchNotCollected(fn); skip != "" {
+			probs = append(probs, skip)
+		}
 		report("sequence", fn, probs, n)
 	} else {
 		report("sequence", nil, nil, 0)
@@ -490,6 +493,9 @@ func checkPegCombinators(r *Run, prog *Program, pfx string) {
 		}
 		if many == 0 {
 			probs = append(probs, "no path with two matches in a row")
+		}
+		if skip := e.matchNotCollected(fn); skip != "" {
+			probs = append(probs, skip)
 		}
 		report(rp.name, fn, probs, n)
 	}
@@ -1410,4 +1416,85 @@ func (e *pegEngine) combinatorOf(f *ssa.Function) bool {
 	}
 	nt, ok := pt.Elem().(*types.Named)
 	return ok && nt.Obj().Pkg() == e.prog.Grammar.Types
+}
+
+// matchNotCollected: in the loop of a repetition or a sequence every match is added to the list of values — whatever the
+// number of matches so far (the paths followed above see three iterations only). Decided on the control-flow graph: from
+// the edge taken when the sub-expression matched there is no way back to the next descent that avoids the append.
+func (e *pegEngine) matchNotCollected(fn *ssa.Function) string {
+	for _, b := range fn.Blocks {
+		for _, ins := range b.Instrs {
+			c, ok := ins.(*ssa.Call)
+			if !ok || c.Call.StaticCallee() != e.parseExpr {
+				continue
+			}
+			callBlk := b
+			// the test of its outcome
+			var okVal ssa.Value
+			if refs := c.Referrers(); refs != nil {
+				for _, u := range *refs {
+					if ex, isEx := u.(*ssa.Extract); isEx && ex.Index == 1 {
+						okVal = ex
+					}
+				}
+			}
+			if okVal == nil {
+				continue
+			}
+			var matched *ssa.BasicBlock
+			for _, b2 := range fn.Blocks {
+				iff, isIf := b2.Instrs[len(b2.Instrs)-1].(*ssa.If)
+				if !isIf {
+					continue
+				}
+				switch cond := iff.Cond.(type) {
+				case *ssa.Extract:
+					if ssa.Value(cond) == okVal {
+						matched = b2.Succs[0]
+					}
+				case *ssa.UnOp:
+					if cond.Op == token.NOT && cond.X == okVal {
+						matched = b2.Succs[1]
+					}
+				}
+			}
+			if matched == nil {
+				continue
+			}
+			hasAppend := func(blk *ssa.BasicBlock) bool {
+				for _, i2 := range blk.Instrs {
+					if c2, ok := i2.(*ssa.Call); ok {
+						if bi, isB := c2.Call.Value.(*ssa.Builtin); isB && bi.Name() == "append" {
+							return true
+						}
+					}
+				}
+				return false
+			}
+			seen := map[*ssa.BasicBlock]bool{}
+			var dfs func(blk *ssa.BasicBlock) bool
+			dfs = func(blk *ssa.BasicBlock) bool {
+				if seen[blk] {
+					return false
+				}
+				seen[blk] = true
+				if hasAppend(blk) {
+					return false
+				}
+				if blk == callBlk {
+					return true
+				}
+				for _, sc := range blk.Succs {
+					if dfs(sc) {
+						return true
+					}
+				}
+				return false
+			}
+			if dfs(matched) {
+				return "after a match the loop can go on to the next attempt without adding the value to the list (a match is dropped depending on how many there were)"
+			}
+		}
+	}
+	return ""
 }
